@@ -3,8 +3,8 @@
 From Coq Require Import ZArith List Bool Permutation Lia.
 From Verif Require Import Containers.BitVecModel Containers.BitVecProofs Containers.ArenaModel Containers.ArenaProofs
   Containers.VecModel Containers.VecProofs Containers.WorldProofs Containers.World2Proofs Containers.HashModel Containers.HashProofs Containers.NameHashModel Containers.NameHashProofs Containers.StrModel Containers.StrProofs Containers.StrMove
-  Containers.TreeModel Containers.TreeProofs Containers.TreeGeneral Containers.TreeRotate Containers.TreeRecolor Containers.TreeLink Containers.TreeInsertAbs Containers.TreeInsertRefine Containers.TreeRemoveAbs Containers.TreeRemoveRefine Containers.TreeOps Containers.TreeKeys Containers.TreeMap Containers.ArenaChainModel Containers.ArenaChainProofs Containers.ArenaChainGeneral Containers.C18Examples
-  Containers.ListModel Containers.ListProofs Containers.ListGeneral Containers.ListFrame Containers.ListOps Containers.PoolOps Containers.BitSetModel Containers.BitSetProofs Containers.BitSetWords Containers.BitSetOps Containers.RangeIterModel Containers.RangeIterProofs Containers.RangeIterGeneral Containers.RangeIterCompose.
+  Containers.TreeModel Containers.TreeProofs Containers.TreeGeneral Containers.TreeRotate Containers.TreeRecolor Containers.TreeLink Containers.TreeInsertAbs Containers.TreeInsertRefine Containers.TreeRemoveAbs Containers.TreeRemoveRefine Containers.TreeOps Containers.TreeKeys Containers.TreeMap Containers.TreeMap2 Containers.ArenaChainModel Containers.ArenaChainProofs Containers.ArenaChainGeneral Containers.C18Examples
+  Containers.ListModel Containers.ListProofs Containers.ListGeneral Containers.ListFrame Containers.ListOps Containers.PoolOps Containers.BitSetModel Containers.BitSetProofs Containers.BitSetWords Containers.BitSetOps Containers.BitSetOps2 Containers.RangeIterModel Containers.RangeIterProofs Containers.RangeIterGeneral Containers.RangeIterCompose.
 From VerifGen Require Import C18HashTable C18VecTable.
 Import ListNotations.
 Local Open Scope Z_scope.
@@ -1070,6 +1070,35 @@ Example C18_tree_map_computed :
   map (tree_get (fold_left kstep ops tree_empty)) [1; 5; 7; 10; 20; 99] = [6; 3; 5; 0; 0; 0] /\
   map (kmap_all (fun _ => 0) ops) [1; 5; 7; 10; 20; 99] = [6; 3; 5; 0; 0; 0].
 Proof. split; vm_compute; reflexivity. Qed.
+
+(* consequences (round 7, TreeMap2.v): get answers a member key with a node that carries this key, is > 1 and was handed out;
+   different member keys are answered with different nodes; after remove NO key is answered with the removed node *)
+Theorem C18_tree_get_carries_key : forall t keys I k, TInv t keys I -> Z.of_nat (length keys) + 1 < 2 ^ 49 -> In k keys ->
+  key (heap t) (tree_get t k) = k /\ 1 < tree_get t k /\ In (tree_get t k) I.
+Proof. exact tinv_get_key. Qed.
+Print Assumptions C18_tree_get_carries_key.
+Theorem C18_tree_get_injective : forall t keys I k1 k2, TInv t keys I -> Z.of_nat (length keys) + 1 < 2 ^ 49 -> In k1 keys -> In k2 keys ->
+  tree_get t k1 = tree_get t k2 -> k1 = k2.
+Proof. exact tinv_get_injective. Qed.
+Print Assumptions C18_tree_get_injective.
+Theorem C18_tree_removed_node_is_gone : forall t keys I kn, TInv t keys I -> In kn keys -> Z.of_nat (length keys) + 1 < 2 ^ 49 ->
+  forall k, tree_get (tree_remove t (tree_get t kn)) k <> tree_get t kn.
+Proof. exact tinv_remove_gone. Qed.
+Print Assumptions C18_tree_removed_node_is_gone.
+(* non-vacuity: a state reached from the empty tree satisfies TInv with member key 5 (C18_tree_any_sequence), and the computed
+   answers before / after removing key 5 *)
+Example C18_tree_removed_node_is_gone_computed :
+  let ops := [KIns 2 10; KIns 3 5; KIns 4 20] in
+  let t := fold_left kstep ops tree_empty in
+  TInv t (kkeys_all [] ops) (kids_all [] ops) /\ In 5 (kkeys_all [] ops) /\ tree_get t 5 = 3 /\
+  map (tree_get (tree_remove t (tree_get t 5))) [5; 10; 20] = [0; 2; 4].
+Proof.
+  cbv zeta. split.
+  - apply (tree_any_sequence _ tree_empty [] [] tinv_empty).
+    cbv [kpres kpre kkeys kids sins srem Z.ltb Z.eqb Z.compare Pos.compare Pos.compare_cont Pos.eqb length In].
+    repeat split; try (intros Hc; intuition discriminate); try reflexivity.
+  - split; [vm_compute; auto|]. split; vm_compute; reflexivity.
+Qed.
 (* non-vacuity: a sequence that satisfies the preconditions, its textbook result, and the computed model state *)
 Example C18_tree_any_sequence_computed :
   let ops := [KIns 2 10; KIns 3 5; KIns 4 20; KRem 10; KIns 5 7; KRem 20; KIns 6 1] in
@@ -1226,6 +1255,36 @@ Proof.
   assert (Ee : e = EOk) by (vm_compute in E; congruence).
   destruct H as [_ [(_ & B & Sz & Bits)|(Eo & _)]]; [|congruence].
   split; [exact Ee|]. split; [exact B|]. split; [split; [exact Sz|intros j Hj; cbn [fst snd] in *; rewrite Bits by lia; cbn [b_size bitset_empty]; destruct (j <? 0) eqn:X; [apply Z.ltb_lt in X; lia|reflexivity]]|].
+  split; [cbn; lia|]. assert (Eb : b1 = snd (bs_resize (fun _ : Z => true) (arena_init 1024 0) bitset_empty 100 100 true)) by (rewrite E; reflexivity).
+  rewrite Eb. split; vm_compute; reflexivity.
+Qed.
+
+(* ... INCLUDING the range operations fill_bits / clear_bits (round 7, BitSetOps2.v): with the stronger invariant bs_inv2 (the words
+   that hold bits are 64-bit values, whatever lies beyond the size) every step keeps the invariant and the bits follow the textbook *)
+Theorem C18_bitset_any_sequence_with_ranges : forall a ops b s, bs_inv2 a b -> BAbs b s -> bspres2 s ops ->
+  bs_inv2 a (fold_left bsstep2 ops b) /\ BAbs (fold_left bsstep2 ops b) (fold_left bstext2 ops s).
+Proof. exact bitset_any_sequence2. Qed.
+Print Assumptions C18_bitset_any_sequence_with_ranges.
+Theorem C18_bitset_step_with_ranges : forall a b s o, bs_inv2 a b -> BAbs b s -> bspre2 s o ->
+  bs_inv2 a (bsstep2 b o) /\ BAbs (bsstep2 b o) (bstext2 s o).
+Proof. exact bitset_step2. Qed.
+Print Assumptions C18_bitset_step_with_ranges.
+Example C18_bitset_any_sequence_with_ranges_computed :
+  let mok := fun _ : Z => true in
+  let ops := [B2In (BsSet 3 false); B2Clear 10 20; B2Fill 15 3; B2In (BsTrunc 40)] in
+  let '(e, a1, b1) := bs_resize mok (arena_init 1024 0) bitset_empty 100 100 true in
+  e = EOk /\ bs_inv2 a1 b1 /\ BAbs b1 (100, fun _ => true) /\ bspres2 (100, fun _ => true) ops /\
+  b_size (fold_left bsstep2 ops b1) = 40 /\
+  map (bs_bit (fold_left bsstep2 ops b1)) [3; 9; 10; 15; 17; 18; 29; 30] = [false; true; false; true; true; false; false; true].
+Proof.
+  cbv zeta. destruct ex_bitset_empty as [Hinv Hbs2]. pose proof Hbs2 as [Hbs _].
+  pose proof (bs_resize_grow_sound (fun _ : Z => true) (arena_init 1024 0) bitset_empty 100 true Hinv Hbs ltac:(cbn; lia)) as H.
+  pose proof (winit_resize_grow (fun _ : Z => true) (arena_init 1024 0) bitset_empty 100 100 true Hinv Hbs2 ltac:(cbn; lia) ltac:(lia)) as Hw.
+  destruct (bs_resize (fun _ : Z => true) (arena_init 1024 0) bitset_empty 100 100 true) as [[e a1] b1] eqn:E.
+  assert (Ee : e = EOk) by (vm_compute in E; congruence).
+  destruct H as [_ [(_ & B & Sz & Bits)|(Eo & _)]]; [|congruence].
+  split; [exact Ee|]. split; [split; [exact B|exact (Hw Ee)]|].
+  split; [split; [exact Sz|intros j Hj; cbn [fst snd] in *; rewrite Bits by lia; cbn [b_size bitset_empty]; destruct (j <? 0) eqn:X; [apply Z.ltb_lt in X; lia|reflexivity]]|].
   split; [cbn; lia|]. assert (Eb : b1 = snd (bs_resize (fun _ : Z => true) (arena_init 1024 0) bitset_empty 100 100 true)) by (rewrite E; reflexivity).
   rewrite Eb. split; vm_compute; reflexivity.
 Qed.
